@@ -33,6 +33,15 @@ type fileProgram struct {
 // closureProblems runs the static closure clauses on one output.
 func closureProblems(out string, fp *fileProgram) (problems []string, defined, referenced int) {
 	p := machine.ReadAsm(out, machine.ReadOpts{Owners: fp.Owners, UserLabels: fp.UserLabels, DataLabels: fp.DataLabels})
+	// (0) no emitted line has an empty argument (a hoisted text / movement argument that was never filled in shows as one)
+	for _, line := range strings.Split(out, "\n") {
+		if strings.HasPrefix(line, "\t") && !strings.HasPrefix(line, "\t.") {
+			t := strings.TrimRight(line, " ")
+			if strings.HasSuffix(t, ",") || strings.Contains(t, ", ,") || strings.Contains(t, " , ") {
+				problems = append(problems, "command with an empty argument: "+strings.TrimSpace(line))
+			}
+		}
+	}
 	// (1) every label defined exactly once
 	var dups []string
 	for l := range p.DupLabel {
